@@ -166,3 +166,58 @@ def build_polar(spec, state=None):
     with contextlib.redirect_stdout(io.StringIO()):
         system.assemble()
     return system, p, guide
+
+
+class KnifeEdge:
+    """Nonholonomic (velocity-level) constraint on a rigid body, in the style of the rolling condition of the
+    repository's rolling-disc example: the body point P (body-fixed offset B_r_CP) has no velocity along the
+    body-fixed direction n (a skate / knife edge).
+
+    gamma = (A_IB n) . v_P
+    """
+
+    def __init__(self, body, B_r_CP, n, name="knife_edge"):
+        self.subsystem = body
+        self.B_r_CP = np.array(B_r_CP, dtype=float)
+        n = np.array(n, dtype=float)
+        self.n = n / np.linalg.norm(n)
+        self.nla_gamma = 1
+        self.name = name
+
+    def assembler_callback(self):
+        self.qDOF = self.subsystem.qDOF[self.subsystem.local_qDOF_P()]
+        self.uDOF = self.subsystem.uDOF[self.subsystem.local_uDOF_P()]
+
+    def gamma(self, t, q, u):
+        s = self.subsystem
+        return np.array([(s.A_IB(t, q) @ self.n) @ s.v_P(t, q, u, B_r_CP=self.B_r_CP)])
+
+    def gamma_u(self, t, q):
+        s = self.subsystem
+        return ((s.A_IB(t, q) @ self.n) @ s.J_P(t, q, B_r_CP=self.B_r_CP)).reshape(1, -1)
+
+    def gamma_q(self, t, q, u):
+        from cardillo.math.approx_fprime import approx_fprime
+
+        return approx_fprime(q, lambda q: self.gamma(t, q, u), method="cs", eps=1.0e-15).reshape(1, -1)
+
+    def gamma_dot(self, t, q, u, u_dot):
+        return self.gamma_q(t, q, u) @ self.subsystem.q_dot(t, q, u) + self.gamma_u(t, q) @ u_dot
+
+    def gamma_dot_u(self, t, q, u, u_dot):
+        from cardillo.math.approx_fprime import approx_fprime
+
+        return approx_fprime(u, lambda u: self.gamma_dot(t, q, u, u_dot), method="cs", eps=1.0e-15).reshape(1, -1)
+
+    def gamma_dot_q(self, t, q, u, u_dot):
+        from cardillo.math.approx_fprime import approx_fprime
+
+        return approx_fprime(q, lambda q: self.gamma_dot(t, q, u, u_dot)).reshape(1, -1)
+
+    def W_gamma(self, t, q):
+        return self.gamma_u(t, q).T
+
+    def Wla_gamma_q(self, t, q, la_gamma):
+        from cardillo.math.approx_fprime import approx_fprime
+
+        return approx_fprime(q, lambda q: self.gamma_u(t, q).T @ la_gamma)
